@@ -84,7 +84,7 @@ def run_shard(shard, ctx):
             tag = ("c19", kind, D, R)
             Sig = objs.spd_batch(D, R, vi, seed, tag, diag=diag)
             mu = objs.vec_batch(D, R, vi, seed, tag)
-            variants = objs.pdf_variants(kind, Sig, mu, which=("fresh", "sliced_neg", "updated", "Sigma+Lambda", "replaced_mu", "prod_conjugate", "conditioned", "prod_linear", "prod_constant", "hadamard_onerank", "multiply_onerank", "joint_of_cond", "hadamard_linear_bcast", "hadamard_linear_bcast>marginal", "hadamard_linear_bcast>slice") if (vi in (0, 100) and (n == 2 or shard.get("big"))) else ("fresh",))
+            variants = objs.pdf_variants(kind, Sig, mu, which=("fresh", "sliced_neg", "updated", "Sigma+Lambda", "replaced_mu", "prod_conjugate", "conditioned", "prod_linear", "prod_constant", "hadamard_onerank", "multiply_onerank", "joint_of_cond", "hadamard_linear_bcast", "hadamard_linear_bcast>marginal", "hadamard_linear_bcast>slice", "posterior_identity") if (vi in (0, 100) and (n == 2 or shard.get("big"))) else ("fresh",))
             Sig0, mu0 = Sig, mu
             for (prep, mkp, mu, Sig), kseed in [(v, k) for v in variants for k in ((0, 7) if tier == "quick" else (0, 7, 123))]:
                 if prep != "fresh" and kseed != 0:
